@@ -154,6 +154,18 @@ func (c *svConn) waitFrom(id uint32, d time.Duration, all bool) *net.Message {
 	}
 }
 
+// hasUntaken: a frame with this message id and type code has arrived and has not been taken yet
+func (c *svConn) hasUntaken(id uint32, code int) bool {
+	c.mu.Lock()
+	defer c.mu.Unlock()
+	for i := c.taken; i < len(c.got); i++ {
+		if c.got[i].Header.ID == id && svTypeCode(&c.got[i]) == code {
+			return true
+		}
+	}
+	return false
+}
+
 // sync: every frame the server wrote to this connection before it handled the barrier call has
 // been recorded when sync returns (the connection's consumer goroutine and the stream are FIFO).
 func (c *svConn) sync() bool {
